@@ -236,6 +236,17 @@ def apply_fn_subs(unit, item, pc, subs_for_fn, fnargs, owner, canary):
             if not m:
                 raise ExtractError("bad hoist directive")
             rsx.rule_hoist(item, pc, int(m.group(1)), m.group(2), m.group(3))
+        elif sk == "loopend":
+            # ghost text placed right before the closing brace of the body of loop #n (specification only)
+            ls = rsx.loops_of(item)
+            n = int(sargs[0])
+            if n < 1 or n > len(ls):
+                raise ExtractError(f"`{item.name}`: loop #{n} not found")
+            ob = rsx.loop_body_open(item.src, ls[n - 1])
+            pc.insert(item.src.toks[item.src.match(ob)].s, "\n" + text.rstrip() + "\n", "R-SPLICE", f"proof text at the end of the body of loop #{n}")
+        elif sk == "atend":
+            # ghost text placed right before the closing brace of the function body (specification only)
+            pc.insert(item.src.toks[item.body_close].s, "\n" + text.rstrip() + "\n", "R-SPLICE", "proof text at the end of the function body")
         elif sk in ("before", "after"):
             rsx.splice_before(item, pc, unq(" ".join(sargs[1:])), int(sargs[0]), text, after=(sk == "after"))
         else:
